@@ -21,6 +21,8 @@ func HarnessC14L3() {
 		{"a-b", "a_b", "aB", "AB", "a b", "A_B_2", "a.b", "a-b-2"},
 		{"id", "Id", "ID", "i_d", "Id_2", "id2", "ID_3", "_id"},
 		{"x1", "x_1", "X1", "x-1", "X1_2", "X_1_2", "x1_", "1x"},
+		// white space inside names: single and double spaces, a tab, a no-break space
+		{"first name", "first  name", "first\tname", "first\u00a0name", " first name", "first name ", "firstName", "first_name"},
 	}
 	fam := fams[zzvrt.Choice(len(fams))]
 	fam = fam[:zzvrt.Param("POOL", 6)]
